@@ -234,8 +234,12 @@ func (r *Run) Finish() {
 		ev["assumptions"] = []string{}
 	}
 	b, _ := json.MarshalIndent(ev, "", " ")
-	_ = os.MkdirAll(filepath.Join(VerifDir, "evidence"), 0o755)
-	if err := os.WriteFile(filepath.Join(VerifDir, "evidence", r.Prop+".json"), append(b, '\n'), 0o644); err != nil {
+	evDir := "evidence"
+	if strings.HasPrefix(r.Prop, "X") { // checks beyond the listed properties keep their records apart
+		evDir = "evidence_extra"
+	}
+	_ = os.MkdirAll(filepath.Join(VerifDir, evDir), 0o755)
+	if err := os.WriteFile(filepath.Join(VerifDir, evDir, r.Prop+".json"), append(b, '\n'), 0o644); err != nil {
 		Fatalf("write evidence: %v", err)
 	}
 	// Known findings: one line each, for every listed finding that was reproduced.
